@@ -123,6 +123,7 @@ func runC18(c *core.Ctx) {
 	if vo == nil || gco == nil {
 		return
 	}
+	checkOperatorDerivation(c)
 	writers := storageWriters(c)
 	hs := Handlers(c)
 	c.Floor("registered native handlers", len(hs), 39)
